@@ -4,6 +4,7 @@ import (
 	"fmt"
 	"go/types"
 	"os"
+	"sort"
 	"path/filepath"
 	"regexp"
 	"strconv"
@@ -631,6 +632,7 @@ type evalEnv struct {
 	lookup func(name string) (Val, bool)
 	bound  map[string]Val
 	fr     *Frame
+	loop   *loopInfo
 }
 
 func (env *evalEnv) with(name string, v Val) *evalEnv {
@@ -754,10 +756,22 @@ func (e *Engine) eval(x Expr, env *evalEnv) Val {
 			lo, hi := e.eval(y.Lo, env), e.eval(y.Hi, env)
 			rng = and(app("<=", lo.S, bv), app("<", bv, hi.S))
 		}
-		if y.Forall {
-			return Val{S: fmt.Sprintf("(forall ((%s %s)) %s)", bv, srt, implies(rng, body.S)), T: specBool}
+		pats := ""
+		for _, p := range inferPatterns(body.S, bv) {
+			pats += " :pattern (" + p + ")"
 		}
-		return Val{S: fmt.Sprintf("(exists ((%s %s)) %s)", bv, srt, and(rng, body.S)), T: specBool}
+		if y.Forall {
+			f := implies(rng, body.S)
+			if pats != "" {
+				f = "(! " + f + pats + ")"
+			}
+			return Val{S: fmt.Sprintf("(forall ((%s %s)) %s)", bv, srt, f), T: specBool}
+		}
+		f := and(rng, body.S)
+		if pats != "" {
+			f = "(! " + f + pats + ")"
+		}
+		return Val{S: fmt.Sprintf("(exists ((%s %s)) %s)", bv, srt, f), T: specBool}
 	}
 	return e.evalErr(fmt.Sprintf("cannot evaluate %T", x))
 }
@@ -888,7 +902,7 @@ func (e *Engine) indexOf(base, idx Val, env *evalEnv) Val {
 	switch bt := types.Unalias(base.T).Underlying().(type) {
 	case *types.Slice:
 		hn, hs := e.vc.arrHeapName(bt.Elem())
-		return Val{S: app("select", app("select", e.heap(env.st, hn, hs), app("sptr", base.S)), app("+", app("soff", base.S), idx.S)), T: bt.Elem()}
+		return Val{S: app("select", app("select", e.heap(env.st, hn, hs), app("sptr", base.S)), app("idx", app("soff", base.S), idx.S)), T: bt.Elem()}
 	case *types.Array:
 		return Val{S: app("select", base.S, idx.S), T: bt.Elem()}
 	case *types.Map:
@@ -1043,10 +1057,26 @@ func (e *Engine) evalCall(y *ECall, env *evalEnv) Val {
 			return e.evalErr("macro " + y.Fn + ": wrong number of arguments")
 		}
 		sub := env
+		// string-valued macro arguments are passed through placeholders so that sums in the macro body become
+		// functions of them (the same uninterpreted sum is then used for every argument value)
+		type ph struct{ name, term string }
+		var phs []ph
 		for i, pn := range m.Params {
-			sub = sub.with(pn, arg(i))
+			av := arg(i)
+			if av.T != nil && kindOf(av.T) == kStr && !isBoundVarName(av.S) {
+				e.qn++
+				name := fmt.Sprintf("%s_q%d", mangle(pn), e.qn)
+				phs = append(phs, ph{name, av.S})
+				sub = sub.with(pn, Val{S: name, T: av.T})
+				continue
+			}
+			sub = sub.with(pn, av)
 		}
-		return e.eval(m.Body, sub)
+		r := e.eval(m.Body, sub)
+		for _, p := range phs {
+			r.S = replaceToken(r.S, p.name, p.term)
+		}
+		return r
 	}
 	if v, ok := e.specFunc(y, env); ok {
 		return v
@@ -1069,22 +1099,54 @@ func (fr *Frame) invEnv(li *loopInfo, st *State, phiVals map[*ssa.Phi]Val) *eval
 	// range loops: key variable denotes the next index to process (phi + 1)
 	rangeKey := fr.rangeKeyName(li)
 	lookup := func(name string) (Val, bool) {
-		// header phis by comment
-		for phi, v := range phiVals {
-			if phi.Comment == name {
+		// header phis by comment (first in instruction order)
+		for _, hin := range h.Instrs {
+			phi, isPhi := hin.(*ssa.Phi)
+			if !isPhi {
+				break
+			}
+			if v, ok := phiVals[phi]; ok && phi.Comment == name {
 				return v, true
+			}
+		}
+		if strings.HasPrefix(name, "$i") && len(name) > 2 {
+			// $iN: the index of (enclosing or own) range loop N: processed-count at its header, current index in its body
+			var n int
+			if _, err := fmt.Sscan(name[2:], &n); err == nil {
+				for _, l2 := range fr.loopList {
+					if l2.ordinal != n {
+						continue
+					}
+					for _, in := range l2.header.Instrs {
+						phi, ok := in.(*ssa.Phi)
+						if !ok {
+							break
+						}
+						if phi.Comment != "rangeindex" {
+							continue
+						}
+						if l2 == li {
+							if v, ok := phiVals[phi]; ok {
+								return Val{S: e.vc.defineAlways("ri", "Int", app("+", v.S, "1")), T: specInt}, true
+							}
+						}
+						if v, ok := fr.regs[phi]; ok {
+							return Val{S: e.vc.defineAlways("ri", "Int", app("+", v.S, "1")), T: specInt}, true
+						}
+					}
+				}
 			}
 		}
 		if name == "$i" || (rangeKey != "" && name == rangeKey) {
 			for phi, v := range phiVals {
 				if phi.Comment == "rangeindex" {
-					return Val{S: app("+", v.S, "1"), T: specInt}, true
+					return Val{S: e.vc.defineAlways("ri", "Int", app("+", v.S, "1")), T: specInt}, true
 				}
 			}
 		}
 		return fr.lookupVar(name, env, st)
 	}
-	return &evalEnv{e: e, st: st, old: fr.entry, lookup: lookup, fr: fr}
+	return &evalEnv{e: e, st: st, old: fr.entry, lookup: lookup, fr: fr, loop: li}
 }
 
 // lookupVar resolves a source variable name to its current symbolic value.
@@ -1147,6 +1209,10 @@ func (fr *Frame) loopInvariants(li *loopInfo) []invClause {
 			}
 		}
 	}
+	if fr.contract != nil && fr.loopMapBad && len(fr.contract.LoopInv) > 0 {
+		fr.e.contractErrs = append(fr.e.contractErrs, "contract-stale: the loops of this function cannot be matched to its loop statements")
+		return out
+	}
 	if fr.contract != nil {
 		if fp, ok := fr.contract.LoopFinger[li.ordinal]; ok && li.finger != "" && strings.Join(strings.Fields(fp), " ") != li.finger {
 			fr.e.contractErrs = append(fr.e.contractErrs, fmt.Sprintf("contract-stale: loop %d fingerprint %q does not match source %q", li.ordinal, fp, li.finger))
@@ -1182,27 +1248,128 @@ func (fr *Frame) rangeKeyName(li *loopInfo) string {
 	return rangeKeyOf(li.stmt)
 }
 
-// evalSum: sum v in [lo,hi) :: body. The sum is an uninterpreted function of its upper bound, identified by
-// the text of lo and body; each evaluation adds the one-step unfolding at the evaluated bound (no quantifier).
+// evalSum: sum v in [lo,hi) :: body. The sum is an uninterpreted function of its upper bound (and of the
+// enclosing quantified variables occurring in the body), identified by the text of lo and body; each evaluation
+// adds the one-step unfolding at the evaluated bound.
 func (e *Engine) evalSum(y *EQuant, env *evalEnv, bv string, body Val) Val {
 	if y.Lo == nil {
 		return e.evalErr("sum needs a range")
 	}
 	lo, hi := e.eval(y.Lo, env), e.eval(y.Hi, env)
-	canon := strings.ReplaceAll(body.S, bv, "%v") + "|" + lo.S
+	// free quantified variables of the enclosing scopes
+	type prm struct{ name, sort string }
+	var prms []prm
+	var names []string
+	for n := range env.bound {
+		names = append(names, n)
+	}
+	sort.Strings(names)
+	for _, n := range names {
+		v := env.bound[n]
+		if n == y.Var || !isBoundVarName(v.S) {
+			continue
+		}
+		if hasToken(body.S, v.S) || hasToken(lo.S, v.S) {
+			srt := "Int"
+			if v.T != nil {
+				switch {
+				case v.T == addrT:
+					srt = "Addr"
+				case kindOf(v.T) == kStr:
+					srt = "Str"
+				case kindOf(v.T) == kBool:
+					srt = "Bool"
+				}
+			}
+			prms = append(prms, prm{v.S, srt})
+		}
+	}
+	canon := replaceToken(body.S, bv, "%v") + "|" + lo.S
+	for i, p := range prms {
+		canon = replaceToken(canon, p.name, fmt.Sprintf("%%p%d", i))
+	}
 	fn, ok := e.sumFns[canon]
+	var pnames, psorts, pdecl []string
+	for _, p := range prms {
+		pnames = append(pnames, p.name)
+		psorts = append(psorts, p.sort)
+		pdecl = append(pdecl, fmt.Sprintf("(%s %s)", p.name, p.sort))
+	}
+	call := func(up string) string { return app(fn, append([]string{up}, pnames...)...) }
+	quant := func(f, pat string) string {
+		if len(prms) == 0 {
+			return f
+		}
+		return fmt.Sprintf("(forall (%s) (! %s :pattern (%s)))", strings.Join(pdecl, " "), f, pat)
+	}
 	if !ok {
 		fn = fmt.Sprintf("sumfn_%d", len(e.sumFns)+1)
 		e.sumFns[canon] = fn
-		e.vc.declFun(fn, []string{"Int"}, "Int")
-		e.vc.assume(eq(app(fn, lo.S), "0"))
+		e.vc.declFun(fn, append([]string{"Int"}, psorts...), "Int")
+		if !hasAnyToken(lo.S, pnames) && !strings.Contains(lo.S, "!") {
+			e.vc.declSort("(assert " + quant(eq(call(lo.S), "0"), call(lo.S)) + ")")
+		} else {
+			e.vc.assume(quant(eq(call(lo.S), "0"), call(lo.S)))
+		}
 	}
 	at := func(t string) string { return replaceToken(body.S, bv, t) }
 	h := hi.S
+	var allBound []string
+	for _, n := range names {
+		if v := env.bound[n]; isBoundVarName(v.S) {
+			allBound = append(allBound, v.S)
+		}
+	}
+	if hasAnyToken(h, pnames) || hasAnyToken(h, allBound) {
+		// the bound itself depends on quantified variables: unfold inside the quantifier is not possible; no facts
+		return Val{S: call(h), T: specInt}
+	}
+	// a sum over a slice that was sorted in place equals the same sum over the slice before sorting
+	// (sum over a permutation; trusted lemma attached to the sort specification)
+	for _, sp := range e.sortPerms {
+		if h != sp.n || lo.S != "0" || !hasToken(body.S, sp.post) || len(prms) > 0 {
+			continue
+		}
+		oldBody := replaceToken(body.S, sp.post, sp.pre)
+		oc := replaceToken(oldBody, bv, "%v") + "|" + lo.S
+		ofn, ok := e.sumFns[oc]
+		if !ok {
+			ofn = fmt.Sprintf("sumfn_%d", len(e.sumFns)+1)
+			e.sumFns[oc] = ofn
+			e.vc.declFun(ofn, []string{"Int"}, "Int")
+			e.vc.declSort("(assert " + eq(app(ofn, lo.S), "0") + ")")
+		}
+		e.vc.assume(eq(call(h), app(ofn, h)))
+		e.note("approx", "trusted lemma: a sum over a slice sorted in place equals the sum over the slice before sorting")
+	}
 	prev := app("-", h, "1")
-	e.vc.assume(implies(app("<=", h, lo.S), eq(app(fn, h), "0")))
-	e.vc.assume(implies(app(">", h, lo.S), eq(app(fn, h), app("+", app(fn, prev), at(prev)))))
-	return Val{S: app(fn, h), T: specInt}
+	e.vc.assume(quant(implies(app("<=", h, lo.S), eq(call(h), "0")), call(h)))
+	e.vc.assume(quant(implies(app(">", h, lo.S), eq(call(h), app("+", call(prev), at(prev)))), call(h)))
+	return Val{S: call(h), T: specInt}
+}
+
+func isBoundVarName(s string) bool {
+	i := strings.LastIndex(s, "_q")
+	if i < 0 {
+		return false
+	}
+	for _, c := range s[i+2:] {
+		if c < '0' || c > '9' {
+			return false
+		}
+	}
+	return len(s) > i+2
+}
+
+func hasToken(s, tok string) bool { return replaceToken(s, tok, "\x00") != s }
+
+func hasAnyToken(s string, toks []string) bool {
+	for _, t := range toks {
+		if hasToken(s, t) {
+			return true
+		}
+	}
+	return false
 }
 
 func replaceToken(s, tok, with string) string {
